@@ -15,8 +15,9 @@ handed to the peer are the successful writes in order.
 
 `c16 wrap <kind> <n> <data> <err>`: the Read wrapper of that kind on one raw result.
 
-`c16 lock <force> <schedule>`: schedule = string of `r`/`c` moves from the blocked-read state;
-answer `<reader pc> <closer pc> <closed>`.
+`c16 lock <force> <rb> <wb> <schedule>`: schedule = string of `r`/`w`/`c` moves (reader, writer,
+closer) from the state with a blocked read (`rb`) and/or a blocked write (`wb`);
+answer `<reader pc> <writer pc> <closer pc> <closed>`.
 -/
 
 def c16Kind : String → Option Kind
@@ -90,6 +91,8 @@ def c16ReadsOk : List Ev → Bool
 
 def c16Pc (r : RPc) : String :=
   match r with | .idle => "idle" | .waitLock => "waitLock" | .inRead => "inRead" | .done => "done"
+def c16Wc (w : WPc) : String :=
+  match w with | .idle => "idle" | .inWrite => "inWrite" | .done => "done"
 def c16Cc (c : CPc) : String :=
   match c with | .idle => "idle" | .waitLock => "waitLock" | .closing => "closing" | .done => "done"
 
@@ -114,10 +117,12 @@ def handleC16 : List String → String
       let r := if kd == Kind.telnet then telWrap n d err else sysWrap n d err
       s!"d{c16Hex r.1}:{c16Err r.2}"
     | _, _, _, _ => "bad-op"
-  | ["lock", force, sched] =>
-    let moves := sched.toList.filterMap fun c => if c == 'r' then some true else if c == 'c' then some false else none
-    let s := runSched (s2b force) blockedRead moves
-    s!"{c16Pc s.r} {c16Cc s.c} {b2s s.closed}"
+  | ["lock", force, rb, wb, sched] =>
+    let moves := sched.toList.filterMap fun c =>
+      if c == 'r' then some Who.reader else if c == 'w' then some Who.writer
+      else if c == 'c' then some Who.closer else none
+    let s := runSched (s2b force) (blocked (s2b rb) (s2b wb)) moves
+    s!"{c16Pc s.r} {c16Wc s.w} {c16Cc s.c} {b2s s.closed}"
   | _ => "bad-op"
 
 end Driver.C16
